@@ -271,6 +271,38 @@ func genPowerLoss(prop string) func(r *rng, tier string, res *Result) {
 					instants = append(instants, inst{k, o})
 				}
 			} else {
+				if i%8 == 6 {
+					// Directed: segment ids are reused after a compaction, so the newest segment can have
+					// a lower file id than an older one. Process crash, recovery, Sync: the Sync must
+					// flush the segment that holds the last writes of the crashed process.
+					a, b := []byte("ra"), []byte("rb")
+					g.keys = append(g.keys, a, b)
+					for j := 0; j < 14; j++ {
+						v := g.r.bytes(30 + g.r.intn(8))
+						o.write(string(a), v, false)
+						g.put(a, v)
+					}
+					g.compact() // frees the lowest file id(s)
+					for j := 0; j < 14; j++ {
+						v := g.r.bytes(30 + g.r.intn(8))
+						o.write(string(b), v, false)
+						g.put(b, v) // rolls over into a segment that reuses a freed id
+					}
+					g.sync()
+					o.syncedNow(g.ref)
+					v := g.r.bytes(20)
+					o.write(string(b), v, false)
+					g.put(b, v) // unsynced when the process dies
+					if syncMode {
+						o.syncedNow(g.ref)
+					}
+					g.do("kill")
+					g.isOpen = false
+					g.open()
+					g.sync() // everything the recovered database contains is covered now
+					o.syncedNow(g.ref)
+					g.c.tag("sync_after_recovery_with_reused_segment_id")
+				}
 				if i%4 == 3 {
 					// an earlier recovery (with a torn tail to discard). What the dead process wrote
 					// and never synced is still volatile: the contract is unchanged by the recovery.
